@@ -60,17 +60,26 @@ Kill(h, how) ==
     /\ last' = [op |-> "Kill", h |-> h, reply |-> "nojob"]
     /\ Log("Kill", h, "", how, "")
 
+(* the teamserver stops and starts again on its database: the sessions that were alive come back with the id, key, IV and
+   recorded metadata they had; dead ones do not, their ids are free again *)
+Alive(i) == \E n \in 1..Len(sess) : sess[n].id = i /\ sess[n].active
+Restart ==
+    /\ sess' = SelectSeq(sess, LAMBDA x : x.active)
+    /\ sent' = [i \in Ids |-> IF Alive(i) THEN sent[i] ELSE NoneRec]
+    /\ last' = [op |-> "Restart", h |-> "", reply |-> "nojob"]
+    /\ Log("Restart", "", "", "", "")
 Next == /\ Len(hist) < MaxOps
         /\ \/ \E h \in Ids \cup {Zero}, j \in Ids, k \in Keys, m \in Metas : Reg(h, j, k, m)
            \/ \E h \in Ids \cup {Zero} : CheckIn(h)
            \/ \E h \in Ids, j \in Ids, k \in Keys, m \in Metas : Refresh(h, j, k, m)
            \/ \E h \in Ids, how \in {"mark", "exit"} : Kill(h, how)
+           \/ (Restart /\ \A i \in 1..Len(hist) : hist[i].op # "Restart")
 Spec == Init /\ [][Next]_vars
 -----------------------------------------------------------------------------
 (* C03, session clauses *)
 UniqueIds == \A a, b \in 1..Len(sess) : sess[a].id = sess[b].id => a = b
 MetaAsSent == \A n \in 1..Len(sess) : sess[n].id \in Ids /\ sess[n].key = sent[sess[n].id].key /\ sess[n].meta = sent[sess[n].id].meta
 RegCreatesOne == \A i \in Ids : sent[i] # NoneRec => Cardinality({n \in 1..Len(sess) : sess[n].id = i}) = 1
-IdStable == \A n \in 1..Len(sess) : n <= Len(sess') /\ sess'[n].id = sess[n].id
+IdStable == (last'.op # "Restart") => \A n \in 1..Len(sess) : n <= Len(sess') /\ sess'[n].id = sess[n].id      \* (a restart drops the dead sessions)
 IdImmutable == [][IdStable]_vars
 =============================================================================
